@@ -147,6 +147,9 @@ def check_fixed(st):
                 st.violation('fixed:audit-failed:%s' % name, {'status': res.status, 'stdout': res.stdout[-300:]})
                 continue
             sha = wire.fingerprint_sha256(blob)
+            e = key_entry(res, 'json' if fmt == 'json' else 'text', name)
+            if e is not None and name != 'ssh-dss' and size_notes(e['notes']):
+                st.violation('fixed:size-note-on-fixed-size-key:%s' % name, {'name': name, 'notes': size_notes(e['notes']), 'fmt': fmt})
             if fmt == 'json':
                 doc = json.loads(res.stdout)
                 fps = [f for f in doc['fingerprints'] if f['hostkey'] == name and f['hash_alg'] == 'SHA256']
@@ -233,6 +236,89 @@ def work_cert(chunk, st):
     st.sample({'certificate': chunk[0][0][0], 'host_bits': chunk[0][0][1], 'ca': list(chunk[0][1])}, cap=6)
 
 
+# ---- several host keys on one server: what is reported for one key must not depend on the others
+RSA_SLOT = [None, 1024, 2048, 4096]
+RSACERT_SLOT = [None, (2048, 'rsa', 4096), (3072, 'rsa', 1024), (4096, 'ed25519', 256)]
+ED_SLOT = [None, True]
+EDCERT_SLOT = [None, ('ed25519', 256), ('rsa', 2048), ('ecdsa', 384)]
+ECDSA_SLOT = [None, 256]
+
+
+def _ca_tree(kind, bits):
+    if kind == 'rsa':
+        return wire.rsa_blob_tree(bits), 'ssh-rsa'
+    if kind == 'ed25519':
+        return wire.ed25519_blob_tree(b'\x44' * 32), 'ssh-ed25519'
+    return wire.ecdsa_blob_tree(bits), 'ecdsa-sha2-nistp%d' % bits
+
+
+def multi_cases():
+    out = []
+    for rsa, rc, ed, ec, ecd in itertools.product(RSA_SLOT, RSACERT_SLOT, ED_SLOT, EDCERT_SLOT, ECDSA_SLOT):
+        if sum(x is not None for x in (rsa, rc, ed, ec, ecd)) >= 2:
+            for fmt in ('text', 'json'):
+                out.append((rsa, rc, ed, ec, ecd, fmt))
+    return out
+
+
+def work_multi(chunk, st):
+    for rsa, rc, ed, ec, ecd, fmt in chunk:
+        keys, hk, truth = [], {}, {}
+        if ec is not None:
+            t, catype = _ca_tree(*ec)
+            keys.append('ssh-ed25519-cert-v01@openssh.com')
+            hk[keys[-1]] = wire.ed25519_cert_tree(t)
+            truth[keys[-1]] = {'size': 256, 'catype': catype, 'casize': ec[1], 'levels': [expected_level(ec[1])] if ec[0] == 'rsa' and expected_level(ec[1]) else []}
+        if ed:
+            keys.append('ssh-ed25519')
+            hk[keys[-1]] = wire.ed25519_blob_tree()
+            truth[keys[-1]] = {'size': None, 'catype': None, 'casize': None, 'levels': []}
+        if ecd:
+            keys.append('ecdsa-sha2-nistp256')
+            hk[keys[-1]] = wire.ecdsa_blob_tree(256)
+            truth[keys[-1]] = {'size': None, 'catype': None, 'casize': None, 'levels': []}
+        if rc is not None:
+            t, catype = _ca_tree(rc[1], rc[2])
+            keys.append('ssh-rsa-cert-v01@openssh.com')
+            hk[keys[-1]] = wire.rsa_cert_tree(rc[0], t)
+            lv = set()
+            if expected_level(rc[0]):
+                lv.add(expected_level(rc[0]))
+            if rc[1] == 'rsa' and expected_level(rc[2]):
+                lv.add(expected_level(rc[2]))
+            truth[keys[-1]] = {'size': rc[0], 'catype': catype, 'casize': rc[2], 'levels': sorted(lv)}
+        if rsa is not None:
+            keys.append('rsa-sha2-256')
+            hk['ssh-rsa'] = wire.rsa_blob_tree(rsa)
+            truth[keys[-1]] = {'size': rsa, 'catype': None, 'casize': None, 'levels': [expected_level(rsa)] if expected_level(rsa) else []}
+        res, _ = run_server(keys, hk, opts=['-j'] if fmt == 'json' else [])
+        case = {'rsa': rsa, 'rsa_cert': rc, 'ed25519': ed, 'ed25519_cert': ec, 'ecdsa': ecd, 'fmt': fmt}
+        st.execution(res.world, outcome=('multi', len(keys), fmt), root=('multi', rsa, rc, ed, ec, ecd, fmt), nontrivial=('multi', rsa, rc, ed, ec, ecd, fmt))
+        if res.status not in (0, 2, 3):
+            st.violation('multi:audit-failed', dict(case, status=res.status))
+            continue
+        for k in keys:
+            e = key_entry(res, fmt, k)
+            tr = truth[k]
+            if e is None:
+                st.violation('multi:key-not-reported', dict(case, key=k))
+                continue
+            shown_catype = tr['catype']
+            if fmt == 'text' and shown_catype == 'ssh-rsa':
+                shown_catype = 'RSA'
+            exp_size = tr['size']
+            if fmt == 'json' and k == 'ssh-ed25519-cert-v01@openssh.com':
+                exp_size = None      # JSON carries keysize for RSA-family keys only
+            if tr['casize'] == 521:
+                continue
+            if (e['size'], e['catype'], e['casize']) != (exp_size, shown_catype, tr['casize']) and not (fmt == 'json' and tr['catype'] is None and e['catype'] in (None, '') and not e['casize'] and e['size'] == exp_size):
+                st.violation('multi:details-differ-with-other-keys-present:%s' % k.split('@')[0], dict(case, key=k, reported=[e['size'], e['catype'], e['casize']], truth=[exp_size, shown_catype, tr['casize']]))
+            got_lv = sorted(set(l for l, _t in size_notes(e['notes'])))
+            if got_lv != tr['levels']:
+                st.violation('multi:size-rating-differs-with-other-keys-present:%s' % k.split('@')[0], dict(case, key=k, size_notes=size_notes(e['notes']), expected_levels=tr['levels']))
+    st.sample({'multi_key_server': {'rsa': chunk[0][0], 'rsa_cert': chunk[0][1], 'ed25519': chunk[0][2], 'ed25519_cert': chunk[0][3], 'ecdsa': chunk[0][4]}}, cap=8)
+
+
 def check_other_kex(st):
     """the host-key reply is parsed on every key-exchange path"""
     for kex, gex in (('diffie-hellman-group14-sha256', None), ('diffie-hellman-group1-sha1', None), ('diffie-hellman-group16-sha512', None),
@@ -263,13 +349,15 @@ def run(tier, seed):
     par.pmap(work_family, fam, stats=st)
     check_fixed(st)
     par.pmap(work_cert, cert_cases(), stats=st)
+    par.pmap(work_multi, multi_cases(), stats=st)
     check_other_kex(st)
     # monotonicity of the rating in the key size (from this run's observations is implied by the threshold oracle)
     return evidence.finish(
         PID, tier, seed, st, t0,
         rule='RSA moduli with exact bit length b for %d values of b in 512..16384 (step 64; step 8 around 2048/3072; %s) presented as ssh-rsa x %s; '
              'all 15 ordered selections of the RSA family x {1024,2048,3072,4096} x {text,json}; Ed25519/Ed448/ECDSA/DSS keys; %d certificate '
-             'configurations (RSA and Ed25519 certificates x RSA CAs of %s bits, Ed25519 CA, ECDSA P-256/384/521 CAs) x {text,json}; one RSA key per '
+             'configurations (RSA and Ed25519 certificates x RSA CAs of %s bits, Ed25519 CA, ECDSA P-256/384/521 CAs) x {text,json}; every server '
+             'holding two or more of {RSA key of 4 sizes, RSA certificate (3 variants), Ed25519 key, Ed25519 certificate (3 CAs), ECDSA key}; one RSA key per '
              'key-exchange path (group1/14/16, ECDH, curve25519, GEX)' % (len(sizes), 'thresholds +-9 step 1' if tier != 'quick' else 'thresholds +-1',
                                                                          fmts, len(cert_cases()) // 2, [b for k, b in CA_KINDS if k == 'rsa']),
         assumptions=['ground truth = the key the scripted server generated (bit length of the modulus, hashlib fingerprints of the blob sent)',
